@@ -197,7 +197,7 @@ def main(argv=None):
             if j < n_planned:
                 shards = [*shards, dict(shards[j], variant_of=j, env_variant='python -OO', pyflags=['-OO']),
                           dict(shards[j], variant_of=j, env_variant='process state: DEBUG logging, decimal precision 6')]
-                if os.environ.get('RV_ENV_STRICT', '1') == '1':
+                if os.environ.get('RV_ENV_STRICT', '1') == '1' and getattr(mod, 'STRICT_CALLER', True):
                     shards.append(dict(shards[j], variant_of=j, env_variant='strict caller',
                                        strict_numpy=getattr(mod, 'STRICT_NUMPY', {})))
     timeout = getattr(mod, 'TIMEOUT_S', {}).get(a.tier, 1800 if a.tier == 'quick' else 4 * 3600)
